@@ -145,6 +145,30 @@ def explore(chk):
                 kw = {"offset": rng.choice([0, 0, 1, 2])} if docs[o[1]][0] == "scc" else {}
                 o_kw.append(kw)
                 jobs.append({"op": "read", "kind": docs[o[1]][0], "doc": docs[o[1]][1], "kwargs": kw, "init": init.get(docs[o[1]][0], {})})
+    # documents whose reading goes through sets / dicts keyed by strings, read under sixteen hash seeds: an order that leaks
+    # out of a set shows under some seeds only (for one string key about one seed in eight)
+    hs_docs = [("dfxp", '<tt xml:lang="en" xmlns="http://www.w3.org/ns/ttml" xmlns:tts="http://www.w3.org/ns/ttml#styling"><head><layout>'
+                        '<region xml:id="r1" tts:origin="10% 10%" tts:extent="80% 20%"/><region xml:id="low" tts:origin="10% 70%" tts:extent="80% 20%"/>'
+                        '</layout></head><body><div><p begin="1s" end="2s" region="r1">first<br/>line <span tts:fontStyle="italic">two</span></p>'
+                        '<p begin="3s" end="4s" region="r1">second</p></div><div xml:lang="fr"><p begin="1s" end="2s" region="low">un<br/>deux</p>'
+                        '<p begin="3s" end="4s">trois</p></div></body></tt>'),
+               ("dfxp", '<tt xml:lang="en" xmlns="http://www.w3.org/ns/ttml" xmlns:tts="http://www.w3.org/ns/ttml#styling"><head><styling>'
+                        '<style xml:id="a" tts:color="white"/><style xml:id="b" tts:fontStyle="italic"/><style xml:id="c" tts:textAlign="right"/></styling></head>'
+                        '<body><div><p begin="1s" end="2s" style="a b c">one <span style="c b a">two</span></p></div></body></tt>'),
+               ("sami", '<SAMI><HEAD><STYLE TYPE="text/css"><!--\n.ENCC { Name: English; lang: en-US; }\n.FRCC { Name: French; lang: fr-FR; }\n.DECC { lang: de-DE; }\n--></STYLE></HEAD><BODY>'
+                        '<SYNC start=1000><P Class=ENCC>one</P><P Class=FRCC>un</P><P Class=DECC>eins</P></SYNC><SYNC start=2000><P Class=ENCC>&nbsp;</P>'
+                        '<P Class=FRCC>&nbsp;</P><P Class=DECC>&nbsp;</P></SYNC></BODY></SAMI>')]
+    hs_jobs = [{"op": "read", "kind": k_, "doc": d_, "kwargs": {}, "init": {}} for (k_, d_) in hs_docs]
+    hs_res = [pristine(hs_jobs, s_) for s_ in range(16)]
+    for di_, (k_, d_) in enumerate(hs_docs):
+        chk.case(key=("hashseeds", d_), nontrivial=True); chk.count("documents_read_under_16_hash_seeds")
+        groups = {}
+        for s_ in range(16):
+            groups.setdefault(hs_res[s_][di_], []).append(s_)
+        if len(groups) > 1:
+            items = sorted(groups.items(), key=lambda kv: -len(kv[1]))
+            chk.property_failure({"format": k_, "document": d_, "seeds_by_result": [v for _, v in items], "result_a": str(items[0][0][1])[:1200], "result_b": str(items[1][0][1])[:1200]},
+                                 "%s reader: the caption set read from one document depends on PYTHONHASHSEED" % k_)
     seeds = [0, 1, rng.randrange(2, 10 ** 6)]
     pr = [pristine(jobs, s) for s in seeds]
     ji = 0
